@@ -114,7 +114,7 @@ func checkW1(c *Ctx, r *Report) {
 				fmt.Sprintf("the written object may be %v: preparing a plan must not write into the caller's configuration", bad))
 		})
 	}
-	r.Floor("W1-no-store-through-input", stores, 10)
+	r.Floor("W1-no-store-through-input", stores, 6)
 }
 
 func objKey(c *Ctx, o *ptObj) string {
@@ -242,7 +242,7 @@ func checkPackagerStores(c *Ctx, r *Report) {
 			return
 		}
 		if ex, ok := st.Val.(*ssa.Extract); ok {
-			if call, ok := ex.Tuple.(*ssa.Call); ok && calleeIs(call, filesPath, "", "PrepareForPackager") {
+			if call, ok := ex.Tuple.(*ssa.Call); ok && (calleeIs(call, filesPath, "", "PrepareForPackager") || returnsResultOf(call.Call.StaticCallee(), c.Func("files", "PrepareForPackager"), 0)) {
 				okReplace = true
 			}
 		}
@@ -353,10 +353,11 @@ func checkPackagerStores(c *Ctx, r *Report) {
 		}
 	}
 	r.Floor("W2-post-prepare", contentStores, 3)
-	r.Floor("W3", infoStores, 10)
+	r.Floor("W3", infoStores, 6)
 
 	// W4: Validate / Get perform no store through their argument
 	n := 0
+	w4pa := newProv(c)
 	for _, fn := range sortedFuncs(c, validateReach) {
 		if c.funcPkgPath(fn) == filesPath {
 			continue
@@ -373,6 +374,17 @@ func checkPackagerStores(c *Ctx, r *Report) {
 			// Config.Get writes the fresh Info it has just allocated and returns
 			if c.funcKey(fn) == "(*nfpm.Config).Get" && cl.kind == "info" && storeTargetsFreshInfo(st) {
 				return
+			}
+			// ... also in a helper that Get hands that fresh Info to (the only
+			// call site's argument is the allocation)
+			if cl.kind == "info" {
+				if _, root := addrPath(st.Addr); root != nil {
+					if prm, isPrm := root.(*ssa.Parameter); isPrm {
+						if al, isAlloc := resolveUp(c, w4pa, prm).(*ssa.Alloc); isAlloc && c.funcKey(al.Parent()) == "(*nfpm.Config).Get" {
+							return
+						}
+					}
+				}
 			}
 			n++
 			r.Fail("W4-validate-readonly", fmt.Sprintf("store to %s.%s in %s", cl.kind, cl.path, c.funcKey(fn)), c.instrPos(st), "Validate/Get must not write through the configuration")
@@ -1026,7 +1038,7 @@ func checkOutputBuffers(c *Ctx, r *Report) {
 			r.Check(ok2, "G4", construct, c.instrPos(call), why)
 		})
 	}
-	r.Floor("G4", n, 12)
+	r.Floor("G4", n, 8)
 }
 
 // pooledBytesEscape: the object returned by `get` is handed back through a
@@ -1092,4 +1104,43 @@ func pooledBytesEscape(get *ssa.Call) string {
 		}
 	}
 	return ""
+}
+
+// returnsResultOf: every return of fn hands on the results of a call to
+// target (or of such a wrapper): `return target(...)`.
+func returnsResultOf(fn, target *ssa.Function, depth int) bool {
+	if fn == nil || target == nil || fn.Blocks == nil || depth > 2 {
+		return false
+	}
+	n := 0
+	for _, b := range fn.Blocks {
+		ret, ok := b.Instrs[len(b.Instrs)-1].(*ssa.Return)
+		if !ok {
+			continue
+		}
+		n++
+		res := retResults(ret)
+		if len(res) == 0 {
+			return false
+		}
+		var call *ssa.Call
+		for _, v := range res {
+			var c2 *ssa.Call
+			switch x := v.(type) {
+			case *ssa.Extract:
+				c2, _ = x.Tuple.(*ssa.Call)
+			case *ssa.Call:
+				c2 = x
+			}
+			if c2 == nil || call != nil && c2 != call {
+				return false
+			}
+			call = c2
+		}
+		sc := call.Call.StaticCallee()
+		if sc != target && !returnsResultOf(sc, target, depth+1) {
+			return false
+		}
+	}
+	return n > 0
 }
